@@ -350,6 +350,20 @@ TRUSTED_BASE = [
     "model's (Model/Locks.lean): a polling loop that submits a helper on every iteration is represented by one helper run. SpawnSafe (a join / result "
     "is for a thread that was spawned or is running) is a hypothesis of reloader_deadlock_free, not derived (data-dependent in stop()). Tied to CPython "
     "on every run by traced_paths_are_static_paths: the dynamically traced programs are paths of the static ones",
+    "for the translated BUNDLED SCHEMA dsl/policy.schema.json (C06, C17; harness/pytolean_schema.py, lean/Rbacx/Model/JsonSchema.lean, validated against "
+    "the real jsonschema validator built from the same file and against rbacx.dsl.validate.validate_policy on every C06 run by Run/SrcEvalSchema.lean — "
+    "every generated document, accepted or rejected, + ~400 hostile shapes, both directions) the trusted readings are: SHALLOW EMBEDDING — a schema "
+    "object is the conjunction of its keywords, a sub-schema a function PyVal -> Bool, `$ref: #/$defs/X` a call of the definition X costing one unit of "
+    "fuel (the obligation's theorems hold for EVERY fuel; the evaluator uses 2*size+16; below the needed budget `not` / `oneOf` make the verdict "
+    "fuel-dependent, which only the comparison rules out for the evaluator's budget); object member order has no meaning (keywords are emitted in a "
+    "canonical order, `properties` sorted by key); $schema / title / description are annotations, `$defs` the table of definitions; jsonschema's "
+    "keyword semantics on Python values: each keyword constrains its own instance type and passes on others (properties / required / "
+    "additionalProperties:false / minProperties / maxProperties: dict; items / prefixItems / minItems / maxItems: list; minLength: str, in code "
+    "points), type number = int | float but not bool, integer also an integral float, enum (strings only) = a str in the list, oneOf = exactly one "
+    "branch, `format` is NOT asserted (validate_policy installs no format checker); a dict is an association list with distinct keys (a Python dict; "
+    "`type: integer` is the one meaning the current schema does not exercise); any keyword outside this set, a non-local $ref, a non-string enum, "
+    "a schema-valued additionalProperties are REFUSED by the translator and fail the named obligation C06_schema; documents holding lone surrogates "
+    "or non-string keys are outside the value universe and not compared",
 ]
 
 
